@@ -3,17 +3,30 @@
    determined by the arguments of that call alone ... after any sequence of earlier calls with other ... semantics".
    A semantics OBJECT has a behaviour (which actions it defines) and, while it exists, an ADDRESS (its id()).  Addresses are
    reused: once an object is unreachable, a new object may get its address.  The cache remembers, per semantics object and rule,
-   which action to call.  Two designs:
-       ById = FALSE  (as coded) the cache is keyed by the object itself and therefore keeps it alive: its address cannot be
-                     reused while the entry exists
-       ById = TRUE   keyed by address: an entry outlives its object and is found again by the next object at that address
-   ActionsOfGivenObject: the actions that run are those of the object given to THIS call.  TLC proves it for ById = FALSE and refutes
-   it for ById = TRUE; the behaviours of the refuted design (New / Drop / Parse with address reuse) are replayed into the real code,
-   which must answer like the ideal at every step (harness/apireplay.py: run_identity).                                            *)
+   which action to call.  Three designs of the key (constant KeyBy) and two of the "is there a semantics object" test (TruthTest):
+       KeyBy = "object"    keyed by the identity of the object, which the cache keeps alive: its address cannot be reused while the
+                           entry exists                                                                       (the required design)
+       KeyBy = "address"   keyed by address: an entry outlives its object and is found again by the next object at that address
+       KeyBy = "equality"  keyed by the object's own __hash__/__eq__ (what functools.cache does with the object as argument): two
+                           distinct objects that compare equal share one entry, and an object that is not hashable cannot be looked
+                           up at all (the parse raises TypeError)
+       TruthTest = TRUE    `if not semantics` : an object that is falsy (defines __len__ or __bool__) counts as no semantics at all
+       TruthTest = FALSE   `if semantics is None`
+   Objects: p* define no action, t* a tagging action, e1/e2 compare EQUAL but tag differently (tagA / tagB), u1 is unhashable (a
+   dataclass with eq and without frozen), f1 is falsy; u1 and f1 define the tagging action.
+   ActionsOfGivenObject: the actions that run are those of the object given to THIS call.  TLC proves it for KeyBy = "object" with
+   TruthTest = FALSE and refutes it for the other designs; the behaviours of the refuted designs (New / Drop / Parse, with address
+   reuse, equal objects, unhashable and falsy objects) are replayed into the real code, which must answer like the ideal at every
+   step (harness/apireplay.py: run_identity).                                                                                      *)
 EXTENDS Naturals, FiniteSets, TLC
 
-CONSTANTS Objects, Addrs, ById, MaxSteps
-Beh(o) == IF o \in {"p1", "p2"} THEN "plain" ELSE "tag"          \* p*: defines no action for the rule; t*: defines a tagging action
+CONSTANTS Objects, Addrs, KeyBy, TruthTest, MaxSteps
+Beh(o) == CASE o \in {"p1", "p2"} -> "plain"       \* p*: defines no action for the rule; t*, u1, f1: a tagging action
+            [] o = "e1" -> "tagA" [] o = "e2" -> "tagB"
+            [] OTHER -> "tag"
+EqClass(o) == IF o \in {"e1", "e2"} THEN "E" ELSE o      \* e1 == e2 (and hash(e1) == hash(e2)); every other object equals only itself
+Hashable(o) == o # "u1"
+Falsy(o) == o = "f1"
 
 VARIABLES alive,    \* objects the caller still references
           addr,     \* object -> address, for every object that still exists (alive, or kept alive by the cache)
@@ -23,7 +36,9 @@ vars == <<alive, addr, cache, resp, last, steps>>
 
 Exists == DOMAIN addr
 Free == Addrs \ {addr[o] : o \in Exists}
-Key(o) == IF ById THEN addr[o] ELSE o
+Key(o) == CASE KeyBy = "address" -> addr[o] [] KeyBy = "equality" -> EqClass(o) [] OTHER -> o
+\* the objects a cache entry keeps alive: the key itself is an object (or holds one) unless the cache is keyed by address
+Held == IF KeyBy = "address" THEN {} ELSE {o \in Objects : \E k \in DOMAIN cache : cache[k].holder = o}
 
 Init == alive = {} /\ addr = <<>> /\ cache = <<>> /\ resp = "none" /\ last = "none" /\ steps = 0
 
@@ -34,13 +49,15 @@ New(o) == /\ Tick /\ o \notin Exists /\ Free # {}
 
 \* the caller drops its reference; the object disappears (and its address becomes free) unless the cache still refers to it
 Drop(o) == /\ Tick /\ o \in alive /\ alive' = alive \ {o}
-           /\ addr' = IF ~ById /\ o \in DOMAIN cache THEN addr ELSE [x \in Exists \ {o} |-> addr[x]]
+           /\ addr' = IF o \in Held THEN addr ELSE [x \in Exists \ {o} |-> addr[x]]
            /\ UNCHANGED <<cache, resp, last>>
 
 Parse(o) == /\ Tick /\ o \in alive
-            /\ LET k == Key(o) IN
-               IF k \in DOMAIN cache THEN resp' = cache[k] /\ cache' = cache
-               ELSE resp' = Beh(o) /\ cache' = (k :> Beh(o)) @@ cache
+            /\ IF TruthTest /\ Falsy(o) THEN resp' = "plain" /\ cache' = cache                 \* `if not semantics: return None`
+               ELSE IF KeyBy = "equality" /\ ~Hashable(o) THEN resp' = "error" /\ cache' = cache    \* TypeError: unhashable type
+               ELSE LET k == Key(o) IN
+                    IF k \in DOMAIN cache THEN resp' = cache[k].beh /\ cache' = cache
+                    ELSE resp' = Beh(o) /\ cache' = (k :> [beh |-> Beh(o), holder |-> o]) @@ cache
             /\ last' = o /\ UNCHANGED <<alive, addr>>
 
 Next == \E o \in Objects : New(o) \/ Drop(o) \/ Parse(o)
